@@ -192,3 +192,134 @@ Lemma lock_needed : ~ lock_not_needed_stmt.
 Proof.
   intros H. specialize (H EMalloc race_scenario eq_refl). vm_compute in H. discriminate.
 Qed.
+
+(* ---------------- the order in which critical sections write is the order in which the lock was acquired *)
+Definition step_acquires (c : cfg) (t : nat) (st : state) : bool :=
+  match nth_error (st_threads st) t with
+  | Some th =>
+      match th_pc th, th_phase th with
+      | o :: _, PIdle => negb (th_skip th) && (match op_entry o with Some _ => true | None => false end)
+                         && op_locks c o && lock_free (st_lock st)
+      | _, _ => false
+      end
+  | None => false
+  end.
+Definition step_commits (t : nat) (st : state) : bool :=
+  match nth_error (st_threads st) t with
+  | Some th => match th_pc th, th_phase th with _ :: _, PRead _ => true | _, _ => false end
+  | None => false
+  end.
+Fixpoint acq_trace (c : cfg) (sched : list nat) (st : state) : list nat :=
+  match sched with
+  | [] => []
+  | t :: r => (if step_acquires c t st then [t] else []) ++ acq_trace c r (step c t st)
+  end.
+Fixpoint commit_trace (c : cfg) (sched : list nat) (st : state) : list nat :=
+  match sched with
+  | [] => []
+  | t :: r => (if step_commits t st then [t] else []) ++ commit_trace c r (step c t st)
+  end.
+(* the thread that has acquired the lock and not yet written *)
+Definition pending (st : state) : list nat :=
+  match st_lock st with
+  | LHeld t => match nth_error (st_threads st) t with
+               | Some th => match th_phase th with PLocked | PRead _ => [t] | _ => [] end
+               | None => []
+               end
+  | LFree => []
+  end.
+
+Lemma pending_frame : forall st t th th' sh oa,
+  nth_error (st_threads st) t = Some th -> st_lock st <> LHeld t ->
+  pending (mk_state sh (st_lock st) (set_nth (st_threads st) t th') oa) = pending st.
+Proof.
+  intros st t th th' sh oa Hn Hl. unfold pending. simpl. destruct (st_lock st) as [|u]; auto.
+  rewrite nth_error_set_nth_other; auto; congruence.
+Qed.
+
+Lemma acq_commit_step : forall c, all_lock c -> cfg_reporter_unlocks c = true -> forall t st, LockInv st ->
+  pending st ++ (if step_acquires c t st then [t] else []) = (if step_commits t st then [t] else []) ++ pending (step c t st).
+Proof.
+  intros c Hl Hu t st I.
+  assert (Hnot : forall th, nth_error (st_threads st) t = Some th -> in_cs (th_phase th) = false -> st_lock st <> LHeld t).
+  { intros th Hn Hc E. destruct (li_held _ I _ E) as (th' & Hn' & Hc'). congruence. }
+  pose proof (step_tstep c t st) as H. unfold step_acquires, step_commits.
+  remember (step c t st) as st' eqn:Est.
+  destruct H as [ | th o r Hn Hp Hph Hsk | th o r Hn Hp Hph Hsk He | th o r e Hn Hp Hph Hsk He Hlk Hfree | th o r e Hn Hp Hph Hsk He Hlk
+                | th o r Hn Hp Hph | th o r snap sh' failed Hn Hp Hph Hd | th o r Hn Hp Hph | th o r Hn Hp Hph
+                | th o r Hn Hp Hph Ho Hfree | th o r Hn Hp Hph Ho ].
+  - (* no move: neither an acquisition nor a write *)
+    destruct (nth_error (st_threads st) t) as [th|] eqn:Hn; [|rewrite app_nil_r; reflexivity].
+    destruct (th_pc th) as [|o r] eqn:Hp; [rewrite app_nil_r; reflexivity|].
+    destruct (th_phase th) eqn:Hph; try (rewrite app_nil_r; reflexivity).
+    + (* idle: if it could acquire it would have moved *)
+      destruct (negb (th_skip th) && match op_entry o with Some _ => true | None => false end && op_locks c o && lock_free (st_lock st)) eqn:E;
+        [|rewrite app_nil_r; reflexivity].
+      exfalso. apply andb_true_iff in E. destruct E as (E & E4).
+      assert (He : enabled c st t = true). { unfold enabled. rewrite Hn, Hp, Hph. rewrite E4. rewrite !orb_true_r. reflexivity. }
+      apply (enabled_step_moves c t st He). auto.
+    + exfalso. assert (He : enabled c st t = true). { unfold enabled. rewrite Hn, Hp, Hph. reflexivity. }
+      apply (enabled_step_moves c t st He). auto.
+  - rewrite Hn, Hp, Hph, Hsk. simpl. rewrite app_nil_r.
+    unfold upd_thread. erewrite pending_frame; eauto. apply (Hnot th); auto. rewrite Hph; reflexivity.
+  - rewrite Hn, Hp, Hph, Hsk, He. simpl. rewrite app_nil_r.
+    unfold upd_thread. erewrite pending_frame; eauto. apply (Hnot th); auto. rewrite Hph; reflexivity.
+  - (* acquire *)
+    rewrite Hn, Hp, Hph, Hsk, He, Hlk, Hfree. simpl.
+    unfold pending at 1. rewrite Hfree. simpl. unfold pending. simpl.
+    rewrite (nth_error_set_nth_same _ _ _ _ _ Hn). reflexivity.
+  - rewrite (Hl _ _ He) in Hlk. discriminate.
+  - (* read *)
+    rewrite Hn, Hp, Hph. simpl. rewrite app_nil_r.
+    assert (Hh : st_lock st = LHeld t) by (eapply li_holder; eauto; rewrite Hph; reflexivity).
+    unfold pending. simpl. rewrite Hh. rewrite Hn, Hph. rewrite (nth_error_set_nth_same _ _ _ _ _ Hn). reflexivity.
+  - (* commit *)
+    rewrite Hn, Hp, Hph. simpl.
+    assert (Hh : st_lock st = LHeld t) by (eapply li_holder; eauto; rewrite Hph; reflexivity).
+    unfold pending. simpl. rewrite Hh. rewrite Hn, Hph. rewrite (nth_error_set_nth_same _ _ _ _ _ Hn). destruct failed; reflexivity.
+  - (* exit *)
+    rewrite Hn, Hp, Hph. simpl. rewrite app_nil_r.
+    assert (Hh : st_lock st = LHeld t) by (eapply li_holder; eauto; rewrite Hph; reflexivity).
+    destruct (li_shape _ I _ _ Hn) as (_ & o' & r' & e & Hp' & He). rewrite Hph; discriminate.
+    rewrite Hp in Hp'. inversion Hp'; subst o' r'.
+    unfold pending. simpl. rewrite Hh. rewrite Hn, Hph. rewrite (Hl _ _ He), held_by_refl. reflexivity.
+  - (* failing *)
+    rewrite Hn, Hp, Hph. simpl. rewrite app_nil_r.
+    assert (Hh : st_lock st = LHeld t) by (eapply li_holder; eauto; rewrite Hph; reflexivity).
+    unfold pending. simpl. rewrite Hh. rewrite Hn, Hph. rewrite Hu, held_by_refl. reflexivity.
+  - rewrite Hn, Hp, Hph. simpl. rewrite app_nil_r.
+    unfold pending. simpl. rewrite Hfree. reflexivity.
+  - rewrite Hn, Hp, Hph. simpl. rewrite app_nil_r.
+    unfold upd_thread. erewrite pending_frame; eauto. apply (Hnot th); auto. rewrite Hph; reflexivity.
+Qed.
+
+Lemma acq_commit_from : forall c, all_lock c -> cfg_reporter_unlocks c = true -> forall sched st, LockInv st ->
+  pending st ++ acq_trace c sched st = commit_trace c sched st ++ pending (exec c sched st).
+Proof.
+  intros c Hl Hu. unfold exec. induction sched as [|t r IH]; simpl; intros st I.
+  - rewrite app_nil_r. reflexivity.
+  - rewrite app_assoc. rewrite (acq_commit_step c Hl Hu t st I). rewrite <- !app_assoc. f_equal.
+    apply IH. eapply lockinv_step; eauto. apply step_tstep.
+Qed.
+
+(* from the start of a scenario: acquisitions = writes followed by the one thread (if any) that holds the lock and has not
+   written yet; in particular the two orders are the same list once the lock is free *)
+Lemma acquisition_order : forall s sched,
+  acq_trace (the_cfg s) sched (init_state s) = commit_trace (the_cfg s) sched (init_state s) ++ pending (reached s sched).
+Proof. intros. apply (acq_commit_from (the_cfg s) (the_cfg_lock s) eq_refl sched (init_state s) (lockinv_init s)). Qed.
+
+(* the threads of the serialisation trace's critical sections, in order, are the writes counted by commit_trace *)
+Definition ev_tids (l : list event) : list nat := flat_map (fun e => match e with EvOp t _ _ => [t] | EvPrint => [] end) l.
+Lemma trace_tids : forall c sched st, ev_tids (trace c sched st) = commit_trace c sched st.
+Proof.
+  intros c. induction sched as [|t r IH]; simpl; intros st; auto.
+  unfold ev_tids in *. rewrite flat_map_app. f_equal; auto.
+  unfold step_event, step_commits. destruct (nth_error (st_threads st) t) as [th|]; auto.
+  destruct (th_pc th); auto. destruct (th_phase th); auto.
+  destruct (cfg_outalloc c && lock_free (st_lock st)); auto.
+Qed.
+
+Lemma serialisable_in_acquisition_order : forall s sched,
+  st_sh (reached s sched) = fold_left (apply_event (the_cfg s)) (trace (the_cfg s) sched (init_state s)) sh0
+  /\ acq_trace (the_cfg s) sched (init_state s) = ev_tids (trace (the_cfg s) sched (init_state s)) ++ pending (reached s sched).
+Proof. intros. split. apply serialisable. rewrite trace_tids. apply acquisition_order. Qed.
